@@ -111,10 +111,15 @@ V("alg-multiindex-stride", ["C17", "C08"], A, "fire",
   (LN, "            self.global_index = Sum(n * sym for n, sym in zip(stride[1:], symbols))", "            self.global_index = Sum(n * sym for n, sym in zip(stride, symbols))"))
 V("alg-ufl-division-swapped", ["C17"], A, "fire", (LN, "    ufl.algebra.Division: lambda x, a, b: a / b,", "    ufl.algebra.Division: lambda x, a, b: b / a,"))
 V("alg-ufl-gt-swapped", ["C17"], A, "fire", (LN, "    ufl.classes.GT: lambda x, a, b: GT(a, b),", "    ufl.classes.GT: lambda x, a, b: GT(b, a),"))
-V("opt-licm-polarity", ["C17"], A, "fire", (OPT, "                if not dependency:\n                    hoist_candidates.append(arg)", "                if dependency:\n                    hoist_candidates.append(arg)"))
+# inverted polarity collects the factors that DO depend on the inner index; every generated product has exactly one table per
+# argument, so there is never more than one candidate and licm becomes a no-op: the tensor is unchanged (PASS-EQUIV: equal
+# meaning on all samples).  LICM-SOUND's structural objection is overruled -> benign with respect to C17.
+V("opt-licm-polarity", ["C17"], A, "benign", (OPT, "                if not dependency:\n                    hoist_candidates.append(arg)", "                if dependency:\n                    hoist_candidates.append(arg)"))
 V("opt-licm-outer-index", ["C17"], A, "fire", (OPT, "dependency = check_dependency(arg, inner_loop.index)", "dependency = check_dependency(arg, outer_loop.index)"))
 V("opt-licm-preloop-after", ["C17"], A, "fire", (OPT, "    section.statements = pre_loop + section.statements", "    section.statements = section.statements + pre_loop"))
-V("opt-check-dep-default-false", ["C17"], A, "fire",
+# the fall-through only matters for factor kinds other than ArrayAccess / Symbol / literals, which generate_block_parts never
+# emits: unreachable difference -> benign with respect to C17
+V("opt-check-dep-default-false", ["C17"], A, "benign",
   (OPT, "    else:\n        raise NotImplementedError(f\"Statement {statement} not supported.\")\n\n    return False", "    return False"))
 V("opt-fuse-drop-declarations", ["C17"], A, "fire", (OPT, "                declarations.extend(section.declarations)\n", ""))
 V("opt-fuse-loops-key", ["C17"], A, "fire", (OPT, "            id = (statement.index, statement.begin, statement.end)", "            id = (statement.index, statement.begin)"))
@@ -526,3 +531,19 @@ V("gf-descending-ids", ["C06"], GF, "fire", (COM, "        id_sort = np.argsort(
 V("gf-numba-ids-per-group", ["C18"], GF, "fire", ("ffcx/codegeneration/numba/form.py", "            f\"{i}\" for i, domains in zip(integrals.ids, integrals.domains) for _ in domains", "            f\"{i}\" for i in integrals.ids"))
 V("gf-c-hash-none-as-one", ["C06"], GF, "fire", ("ffcx/codegeneration/C/form.py", "            f\"UINT64_C({0 if el is None else el})\" for el in ir.finite_element_hashes", "            f\"UINT64_C({1 if el is None else el})\" for el in ir.finite_element_hashes"))
 V("gf-benign-sorted-range", ["C06"], GF, "benign", (COM, "        id_sort = np.argsort(_ids)", "        id_sort = sorted(range(len(_ids)), key=lambda i: _ids[i])"))
+
+# ---- benign refactors that break a shape-matched idiom: the covering interpretive rule decides (no exit 2) ------
+V("refactor-licm-candidates-comprehension", ["C17"], ["LICM-SOUND", "PASS-EQUIV"], "benign",
+  (OPTF, "            hoist_candidates = []\n            for arg in r.args:\n                dependency = check_dependency(arg, inner_loop.index)\n                if not dependency:\n                    hoist_candidates.append(arg)",
+         "            hoist_candidates = [arg for arg in r.args if not check_dependency(arg, inner_loop.index)]"))
+V("refactor-expr-shape-prefix-var", ["C04"], ["EXPR-LAYOUT", "GEN-EXPR"], "benign",
+  (EGP, "        A_shape = [num_points, components] + self.ir.expression.tensor_shape", "        prefix = [num_points, components]\n        A_shape = prefix + list(self.ir.expression.tensor_shape)"))
+V("refactor-integral-data-helper", ["C06"], ["IDX-SPACE", "PERM-CONSISTENT", "FORM-KERNEL-ALIGN", "GEN-FORM"], "benign",
+  (COM, "        ids += [_ids[i] for i in id_sort]\n        names += [ir.integral_names[itg_type][i] for i in id_sort]\n        domains += [ir.integral_domains[itg_type][i] for i in id_sort]",
+        "        for i in id_sort:\n            ids.append(_ids[i])\n            names.append(ir.integral_names[itg_type][i])\n            domains.append(ir.integral_domains[itg_type][i])"))
+V("refactor-block-index-helper", ["C01", "C08"], ["BOUND-SAMESRC", "GEN-BLOCKS", "GEN-DEFS", "GEN-EXPR"], "benign",
+  (IG, "                if len(blockmap[i]) == 1:\n                    A_indices.append(index.global_index + offset)\n                else:\n                    block_size = blockdata.ma_data[i].tabledata.block_size\n                    A_indices.append(block_size * index.global_index + offset)",
+       "                stride = 1 if len(blockmap[i]) == 1 else tabledata.block_size\n                A_indices.append(stride * index.global_index + offset)"))
+
+V("rflow-normal-unrestricted", ["C02"], ["RESTRICTION-FLOW"], "fire", (ACC, "            facet = self.symbols.entity(\"facet\", mt.restriction)\n            return table[facet][mt.component[0]]", "            facet = self.symbols.entity(\"facet\", None)\n            return table[facet][mt.component[0]]"))
+V("rflow-benign-local", ["C02"], ["RESTRICTION-FLOW"], "benign", (ACC, "        expr = self.symbols.domain_dof_access(dof, component, gdim, num_scalar_dofs, mt.restriction)", "        expr = self.symbols.domain_dof_access(dof, component, gdim, num_scalar_dofs, restriction=mt.restriction)"))
